@@ -482,7 +482,7 @@ def gen_case(rng, family, max_iter, small=False):
         idx = rng.choice(N, outliers, replace=False)
         x[..., idx, :] = x[..., idx, :] * 10.0 ** rng.uniform(1.5, 3.5) * np.std(x)
     offset = 0
-    if (family.startswith('gmm') or fam.has_embedding) and not with_outliers and rng.random() < 0.3:
+    if (family.startswith('gmm') or fam.has_embedding) and not with_outliers and rng.random() < 0.4:
         # un-centred data: a common offset of 1e3..1e7 standard deviations (a Gaussian mixture is translation equivariant)
         x = e if fam.has_embedding else y
         offset = int(rng.integers(3, 8))
